@@ -12,7 +12,7 @@ git -C /verif archive "$old" harness | tar -x -C $S
 OLD=$S/harness/target/release/rxv OUT=$S/out python3 - <<'PY'
 import json,subprocess,glob,os
 old=os.environ['OLD']; new='/verif/harness/target/release/rxv'; out=os.environ['OUT']
-env=dict(os.environ, VERIF_DIR=out)
+env=dict(os.environ, VERIF_DIR=out, RXV_OUT_DIR=out)
 def run(b,pid,f):
     r=subprocess.run([b,pid,'--replay',f],capture_output=True,text=True,env=env)
     return r.returncode,r.stdout
